@@ -281,7 +281,7 @@ def run_shard(shard, tier):
                 check_export(acc, which, m, tu, {}, tmp)
             m.pt.reset()
             m.apply_init()
-            m.run([0.25, 'sec'], [1.0, 'sec'], duty=[0.5, 1, 1, 1, 1])
+            m.run([0.0625, 'sec'], [1.25, 'sec'], duty=[0.5, 1, 1, 1, 1])      # finer step, more instants than before the reset
             for t in target_times(m):
                 check_snapshot(acc, which, m, None, t, 'sec', {}, tag='after-reset-and-rerun')
             check_export(acc, which, m, 'ms', {'angular_speed_unit': 'rpm'}, tmp)
